@@ -1238,6 +1238,13 @@ func (c *Ctx) Neg(a *Term) *Term {
 		if isConstTree(a, 8) {
 			return c.mapLeaves(a, c.Neg)
 		}
+	case OAdd:
+		// -(x + y) = -x + -y, so that sums cancel term by term
+		ns := make([]*Term, len(a.Args))
+		for i, t := range a.Args {
+			ns[i] = c.Neg(t)
+		}
+		return c.Add(ns...)
 	}
 	// known trailing zeros followed by a known one: -x = concat(~hi, 1, 0..0)
 	tz := bits.TrailingZeros64(^a.K0)
